@@ -459,4 +459,7 @@ class C16(Prop):
                 return
 
 
+from sim.prop import with_eager  # noqa: E402
+
+C16.tiers = with_eager(C16.tiers, [('timed', 80000)])
 PROPS = {"C16": C16()}
